@@ -24,7 +24,11 @@ class C11(Check):
             "renamed, timer fields, stale/post-dated, envelope dropped/duplicated/reordered/injected/replayed from another "
             "session) the receiver must report an error at that position, deliver every envelope in front of it as verified and "
             "never deliver as verified content nobody signed; untampered chains must verify; what the library writes "
-            "(requests, responses, outgoing envelopes) must be the RFC chain MAC. Model cases: name decoder, stripTsig, tsigBuffer, digest, verify, generate, "
+            "(requests, responses, outgoing envelopes) must be the RFC chain MAC. Key stores: every receive path x 14 receiver "
+            "configurations (no store, empty map, other names, the name with another secret, in another case, without the dot, "
+            "undecodable secret, right store, TsigProvider right / other secret / failing) x 5 message kinds (signed, garbage MAC, "
+            "unknown key, unknown algorithm, no TSIG): verified iff the independent verifier accepts under the receiver's own "
+            "store, and an error status whenever any store is configured. Model cases: name decoder, stripTsig, tsigBuffer, digest, verify, generate, "
             "chain on boundary-directed hand-made octets (both sides of every bounds check) and on sampled alterations; chain and verify "
             "cases whose implementation verdict is the one Transfer.In / Transfer.ReadMsg / Conn.ReadMsg / TsigStatus reported. A case is "
             "non-trivial when its input is longer than a DNS header; distinct by hash of (function, arguments, output).")
